@@ -142,8 +142,13 @@ func corruptions(sp spec, emit func(label string, exp int, text string)) {
 			for _, k := range []string{"-1", "65536", "70000", "1.5", "", "x", "4294967297", "-30023", "99999999999999999999"} {
 				str("kind part "+k, expIll, k+":"+pk+":"+d)
 			}
-			for _, k := range []string{"+5", "007"} {
+			for _, k := range []string{"+5", "007", "+35000", "035000", "-0", "00"} {
 				str("kind part "+k, expUnclaimed, k+":"+pk+":"+d)
+			}
+			for _, k := range []string{"0", "1", "32767", "32768", "35000", "65535"} {
+				if k != kind {
+					str("kind part "+k, expOK, k+":"+pk+":"+d)
+				}
 			}
 			for _, v := range []string{kind + ":" + pk, kind, "", pk, "::", ":" + pk + ":" + d} {
 				str("not of the form kind:pubkey:d", expIll, v)
@@ -153,6 +158,12 @@ func corruptions(sp spec, emit func(label string, exp int, text string)) {
 			num(expUnclaimed, "1e2", "1.0", "-0", "1E0", "0.0")
 			if typ == tAUTH {
 				num(expUnclaimed, "1")
+			} else {
+				for _, k := range []string{"0", "32767", "32768", "65535"} {
+					if k != s.node.raw {
+						num(expOK, k)
+					}
+				}
 			}
 		case "event.created_at":
 			num(expIll, "1.5", "0.5", "-1.5")
@@ -330,6 +341,48 @@ func corruptions(sp spec, emit func(label string, exp int, text string)) {
 	emit("U+000C as whitespace", expUnclaimed, base+"\f")
 }
 
+// variantClass names the class of a rejected variant that is still well-formed because a kind was
+// replaced by another kind of 0..65535: when the plain message carrying just that kind is turned
+// away too, the kind is to blame (whatever the base message was).
+func (r *runner) variantClass(cl string) string {
+	var class, plain string
+	switch {
+	case strings.HasPrefix(cl, "filter.#a[]: kind part "):
+		k := strings.TrimPrefix(cl, "filter.#a[]: kind part ")
+		class, plain = "#a value with kind part "+k, `["REQ","s",{"#a":["`+k+":"+hexX+`:"]}]`
+	case strings.HasPrefix(cl, "filter.kinds[] = "):
+		k := strings.TrimPrefix(cl, "filter.kinds[] = ")
+		class, plain = "kinds ["+k+"]", `["REQ","s",{"kinds":[`+k+`]}]`
+	case strings.HasPrefix(cl, "event.kind = "):
+		k := strings.TrimPrefix(cl, "event.kind = ")
+		ev := spec{typ: tEVENT}.build()
+		for i, key := range ev.elems[1].keys {
+			if key.str == "kind" {
+				ev.elems[1].elems[i] = N(k)
+			}
+		}
+		class, plain = "event kind "+k, ev.text()
+	default:
+		return ""
+	}
+	if W([]byte(plain)).st != wfOK {
+		return ""
+	}
+	r.admitMu.Lock()
+	v, ok := r.admitOK["text:"+plain]
+	r.admitMu.Unlock()
+	if !ok {
+		v = admit([]byte(plain)).ok
+		r.admitMu.Lock()
+		r.admitOK["text:"+plain] = v
+		r.admitMu.Unlock()
+	}
+	if v {
+		return ""
+	}
+	return class
+}
+
 func doCorrupt(w *worker, sp spec) {
 	label := specLabel(sp)
 	base := sp.build().text()
@@ -348,6 +401,9 @@ func doCorrupt(w *worker, sp spec) {
 		}
 		local[text] = struct{}{}
 		w.eval(text, label+" | "+cl, exp, func() string {
+			if c := w.r.variantClass(cl); c != "" {
+				return c
+			}
 			if !r0.ok {
 				return classBase()
 			}
